@@ -7,10 +7,35 @@ package centrifuge
 // started meanwhile.
 
 import (
+	"fmt"
 	"math/rand"
 	"strings"
 	"testing"
 )
+
+// do the pushes on the wire appear in the order the broker delivered them?
+func c10OrderOK(frames []c01Frame, delivK []string) bool {
+	j := 0
+	for _, f := range frames {
+		var k string
+		switch f.K {
+		case "pub":
+			k = fmt.Sprintf("pub:%d", f.Pubs[0].ID)
+		case "join", "leave":
+			k = f.K
+		default:
+			continue
+		}
+		for j < len(delivK) && delivK[j] != k {
+			j++
+		}
+		if j == len(delivK) {
+			return false
+		}
+		j++
+	}
+	return true
+}
 
 func c10Key(sc *c01Script, frames []c01Frame, phaseOf map[int]int) string {
 	started, ended := false, false
@@ -158,6 +183,9 @@ func TestVerifC10(t *testing.T) {
 			t.Logf("case %d: %v", i, world.errs)
 		}
 		key := c10Key(sc, frames, world.phaseOf)
+		if key == "ok" && !c10OrderOK(frames, world.delivK) {
+			key = "push-overtakes"
+		}
 		pushes, started := 0, false
 		for _, f := range frames {
 			switch f.K {
